@@ -1,0 +1,67 @@
+//go:build verif
+
+// Contracts for /verif/govc (comment-only; see /verif/DESIGN.md section 3.2).
+package optimization
+
+// hostOf(node): host name of an optimization.Node (the only repo implementer is *mysql.Node).
+//@ define hostOf(n Node) = unbox(n, "*mysql.Node").host
+// dropOnlyRestored(rs): every host deregistered since entry carries the settings rs (restore precedes deregister).
+//@ define clusterHost(c Cluster, h string) = has(unbox(c, "*app/dcs.OptimizationClusterAdapter").cluster.haNodes, h) || has(unbox(c, "*app/dcs.OptimizationClusterAdapter").cluster.cascadeNodes, h)
+//@ define dropOnlyRestored(rs mysql.ReplicationSettings) = forall h string :: old(d_optReg)[h] && !d_optReg[h] ==> g_rs[h] == rs
+
+//@ func (*app/optimization.Controller).Enable
+//@   requires nonnil [safety]: node != nil
+//@   ensures C19.enable [C19]: e_OptCreate == old(e_OptCreate) + 1 && e_ReplSettings == old(e_ReplSettings) && e_OptDelete == old(e_OptDelete) && g_rs == old(g_rs)
+//@   ensures C19.enable_ok [C19]: result == nil ==> d_optReg[hostOf(node)]
+
+//@ func (*app/optimization.Controller).disable
+//@   requires nonnil [safety]: node != nil
+//@   crash_invariant C19.order [C19]: old(d_optReg)[hostOf(node)] && !d_optReg[hostOf(node)] ==> g_rs[hostOf(node)] == rs
+//@   ensures C19.disable_ok [C19]: result == nil ==> g_rs[hostOf(node)] == rs && !d_optReg[hostOf(node)]
+//@   ensures C19.disable_drop_restored [C19]: old(d_optReg)[hostOf(node)] && !d_optReg[hostOf(node)] ==> g_rs[hostOf(node)] == rs
+//@   ensures C19.disable_order [C19]: e_OptDelete > old(e_OptDelete) ==> resultof("SetReplicationSettings", 1) == nil
+//@   ensures C19.disable_frame [C19]: (forall h string :: h != hostOf(node) ==> g_rs[h] == old(g_rs)[h] && d_optReg[h] == old(d_optReg)[h]) && e_OptCreate == old(e_OptCreate) && e_Optimize == old(e_Optimize) && (forall h string :: d_optReg[h] ==> old(d_optReg)[h])
+//@   assert_at DeleteHosts#1 C19.restore_before_drop [C19]: resultof("SetReplicationSettings", 1) == nil && g_rs[hostOf(node)] == rs && len(callarg0) == 1 && callarg0[0] == hostOf(node)
+
+//@ func (*app/optimization.Controller).Disable
+//@   requires nonnil [safety]: node != nil && master != nil
+//@   ensures C19.disable1_frame [C19]: (forall h string :: h != hostOf(node) ==> g_rs[h] == old(g_rs)[h] && d_optReg[h] == old(d_optReg)[h]) && e_OptCreate == old(e_OptCreate) && e_Optimize == old(e_Optimize)
+//@   ensures C19.disable1_ok [C19]: result == nil ==> !d_optReg[hostOf(node)]
+
+//@ func (*app/optimization.Controller).DisableAll
+//@   requires nonnil [safety]: master != nil
+//@   loop 1 invariant frame: e_OptCreate == old(e_OptCreate) && e_Optimize == old(e_Optimize) && (forall h string :: d_optReg[h] ==> old(d_optReg)[h])
+//@   ensures C19.all_frame [C19]: e_OptCreate == old(e_OptCreate) && e_Optimize == old(e_Optimize) && (forall h string :: d_optReg[h] ==> old(d_optReg)[h])
+//@   assert_at disable#1 C19.all_uses_master_settings [C19]: callarg0 == rs && (resultof("GetReplicationSettings", 1, 1) == nil ==> rs == resultof("GetReplicationSettings", 1, 0)) && (resultof("GetReplicationSettings", 1, 1) != nil ==> rs == mysql.SafeReplicationSettings)
+
+//@ func (*app/optimization.Syncer).stopNodes
+//@   loop 1 invariant idx: -1 <= rangeindex && rangeindex < len(hosts)
+//@   loop 1 invariant restored: forall i int :: 0 <= i && i <= rangeindex ==> g_rs[hosts[i]] == rs || !clusterHost(c, hosts[i])
+//@   loop 1 invariant frame: d_optReg == old(d_optReg) && e_OptCreate == old(e_OptCreate) && e_OptDelete == old(e_OptDelete) && e_Optimize == old(e_Optimize) && (forall h string :: !contains(hosts, h) ==> g_rs[h] == old(g_rs)[h])
+//@   ensures C19.stop_frame [C19]: d_optReg == old(d_optReg) && e_OptCreate == old(e_OptCreate) && e_OptDelete == old(e_OptDelete) && e_Optimize == old(e_Optimize) && (forall h string :: !contains(hosts, h) ==> g_rs[h] == old(g_rs)[h])
+//@   ensures C19.stop_ok [C19]: result == nil ==> (forall i int :: in_range(i, hosts) ==> g_rs[hosts[i]] == rs || !clusterHost(c, hosts[i]))
+
+//@ func (*app/optimization.Syncer).disableNodes
+//@   ensures C19.disable_nodes_order [C19]: e_OptDelete > old(e_OptDelete) ==> resultof("stopNodes", 1) == nil && (forall i int :: in_range(i, hosts) ==> g_rs[hosts[i]] == rs || !clusterHost(c, hosts[i]))
+//@   ensures C19.disable_nodes_frame [C19]: e_OptCreate == old(e_OptCreate) && e_Optimize == old(e_Optimize) && e_OptDelete <= old(e_OptDelete) + 1 && (forall h string :: !contains(hosts, h) ==> g_rs[h] == old(g_rs)[h] && d_optReg[h] == old(d_optReg)[h]) && (forall h string :: d_optReg[h] ==> old(d_optReg)[h])
+//@   ensures C19.disable_nodes_ok [C19]: result == nil ==> (forall i int :: in_range(i, hosts) ==> !d_optReg[hosts[i]])
+//@   assert_at DeleteHosts#1 C19.drop_after_restore [C19]: resultof("stopNodes", 1) == nil && callarg0 == hosts
+
+//@ func (*app/optimization.Syncer).startNodes
+//@   loop 1 invariant idx: -1 <= rangeindex && rangeindex < len(hosts)
+//@   loop 1 invariant cnt: e_Optimize <= old(e_Optimize) + rangeindex + 1 && d_optReg == old(d_optReg) && e_OptDelete == old(e_OptDelete) && e_OptCreate == old(e_OptCreate) && (forall h string :: !contains(hosts, h) ==> g_rs[h] == old(g_rs)[h])
+//@   ensures C19.start_bound [C19]: e_Optimize <= old(e_Optimize) + len(hosts) && d_optReg == old(d_optReg) && e_OptDelete == old(e_OptDelete) && e_OptCreate == old(e_OptCreate) && (forall h string :: !contains(hosts, h) ==> g_rs[h] == old(g_rs)[h])
+
+//@ func (*app/optimization.Syncer).syncNodeOptions
+//@   ensures C19.syncopts [C19]: e_Optimize <= old(e_Optimize) + 1 && d_optReg == old(d_optReg) && e_OptDelete == old(e_OptDelete) && e_OptCreate == old(e_OptCreate) && (node != nil ==> (forall h string :: h != hostOf(node) ==> g_rs[h] == old(g_rs)[h]))
+
+//@ func (*app/optimization.Syncer).balanceToSingleNode
+//@   requires nonnil [safety]: hostsState != nil
+//@   ensures C19.balance_one [C19]: e_Optimize <= old(e_Optimize) + 1 && d_optReg == old(d_optReg) && e_OptDelete == old(e_OptDelete) && e_OptCreate == old(e_OptCreate)
+//@   assert_at syncNodeOptions#1 C19.balance_rest_restored [C19]: len(hostsState.OptimizingHosts) > 1 && resultof("stopNodes", 1) == nil && (forall i int :: 1 <= i && i < len(hostsState.OptimizingHosts) ==> g_rs[hostsState.OptimizingHosts[i]] == masterRs || !clusterHost(c, hostsState.OptimizingHosts[i]))
+//@   assert_at startNodes#1 C19.start_at_most_one [C19]: len(callarg1) <= 1 && len(hostsState.OptimizingHosts) == 0
+
+//@ func (*app/optimization.Syncer).Sync
+//@   ensures C19.sync_one [C19]: e_Optimize <= old(e_Optimize) + 1 && e_OptCreate == old(e_OptCreate) && (forall h string :: d_optReg[h] ==> old(d_optReg)[h])
+//@   assert_at disableNodes#1 C19.sync_drops_converged_and_lost [C19]: callarg2 == masterRs
+//@   assert_at balanceToSingleNode#1 C19.sync_balance_after_disable [C19]: resultof("disableNodes", 1) == nil && callarg1 == masterRs && callarg2 == hostsState
